@@ -1,14 +1,16 @@
 ----------------------------- MODULE MC_FailProb -----------------------------
 EXTENDS FailProb, TLC
 CONSTANTS DMax
-VARIABLES s50, d, t, z
-vars == <<s50, d, t, z>>
+VARIABLES s50, d, t, zoom, z
+vars == <<s50, d, t, zoom, z>>
+Zooms == {1, 100}                        \* all log-distances (median ratio and both scatters) divided by zoom: the probit is a ratio of log-distances and cannot change
 S50s == {30, 40, 50}                     \* log10 of the strength median: 1.5, 2, 2.5 decades
-Init == /\ s50 \in S50s /\ d \in (-DMax)..DMax /\ t \in Triples /\ z = Z(d, t[3])
+Init == /\ s50 \in S50s /\ d \in (-DMax)..DMax /\ t \in Triples /\ zoom \in Zooms /\ z = Z(d, t[3])
 Next == UNCHANGED vars
 Spec == Init /\ [][Next]_vars
 
 RootIsExact == IsTriple(t)
+ZoomInvariant == Norm(5 * d * zoom, t[3] * zoom) = z           \* (d/zoom) / (c/zoom)
 (* only the ratio of the medians matters *)
 OnlyTheRatioOfMediansCounts == \A s2 \in S50s : Z((s2 + d) - s2, t[3]) = z
 (* increases with the load median, decreases with the strength median *)
